@@ -146,6 +146,18 @@ def run_case(spec, workdir):
     isint = spec["dtype"] == "I16"
     mosaic = rng.integers(1, 20000, (H, W)).astype(np.int16) if isint else rng.normal(size=(H, W)).astype(np.float32)
     rects = decompose(R, W, H, spec["n"], spec["overlap"])
+    layers = (not isint) and spec["seed"] % 3 == 0
+    blobs = {}
+    if layers:
+        # "layers": every input spans (nearly) the whole mosaic and carries large undefined blobs; the blobs of different
+        # inputs are disjoint, so the union is defined everywhere, tiles are fully covered by inputs that are undefined
+        # inside them, and an undefined pixel of a later input always lies over a defined pixel of an earlier one
+        k = max(2, min(3, spec["n"]))
+        rects = [(0, 0, W, H)] + [(R.randrange(0, 30), R.randrange(0, 30), W - 30 - R.randrange(0, 30), H - 30 - R.randrange(0, 30)) for _ in range(k - 1)]
+        yy, xx = np.mgrid[0:H, 0:W]
+        stripe = ((xx // R.choice([97, 256, 300])) + (yy // R.choice([131, 256, 280]))) % k
+        for i in range(k):
+            blobs[i] = stripe == i
     ref = (W / 2.0 + R.choice([0, 0.5, 13]), H / 2.0 + R.choice([0, -7]))
     scale = 10 ** R.uniform(-4, -2.5)
     crval = (R.uniform(0, 360), R.uniform(-70, 70))
@@ -160,10 +172,14 @@ def run_case(spec, workdir):
         for k in order_:
             r = rects[k]
             nb = spec["nanborder"] if (not isint and k % 2 == 1) else 0
-            p = fitsgen.write_piece(os.path.join(d, "piece%02d.fits" % k), mosaic, r, ref, scale=scale, crval=crval, bottoms_up=bu, nan_border=nb)
+            src = mosaic
+            if k in blobs:
+                src = mosaic.copy()
+                src[blobs[k]] = np.nan
+            p = fitsgen.write_piece(os.path.join(d, "piece%02d.fits" % k), src, r, ref, scale=scale, crval=crval, bottoms_up=bu, nan_border=nb)
             paths.append(p)
             x0, y0, w, h = r
-            arr = np.array(mosaic[y0:y0 + h, x0:x0 + w])
+            arr = np.array(src[y0:y0 + h, x0:x0 + w])
             if nb:
                 m = np.zeros(arr.shape, bool)
                 m[:nb] = m[-nb:] = True
@@ -252,7 +268,7 @@ def run_case(spec, workdir):
         for t in ref_study.tiles_for_rect(g["gx0"] + x0, g["gy0"] + y0, w, h):
             shared[t] += 1
     nshared = sum(1 for v in shared.values() if v >= 2)
-    res = dict(counters=dict(mosaics=1, tiles_compared=ntiles, shared_tiles=nshared, **{"par_%d" % spec["par"]: 1, "via_" + spec["via"]: 1, "bu_%s" % spec["bu"]: 1}),
+    res = dict(counters=dict(mosaics=1, mosaics_layered=int(layers), tiles_compared=ntiles, shared_tiles=nshared, **{"par_%d" % spec["par"]: 1, "via_" + spec["via"]: 1, "bu_%s" % spec["bu"]: 1}),
                nontrivial=(len(rects) >= 2 and nshared >= 1), sample=dict(spec=spec, rects=rects, order=order, levels=g["levels"]))
     if probs:
         keys = sorted({k.split(" ")[0] for k, _ in probs})
